@@ -1,7 +1,9 @@
 import Mathlib.Data.List.Nodup
+import Mathlib.Tactic.IntervalCases
 import GnpyModel
 import GnpyProofs.Lemmas.SlotsMap
 import GnpyProofs.Lemmas.SlotsBands
+import GnpyProofs.Lemmas.OmsWalk
 /- Property theorems for C15 — every designed network yields a consistent OMS partition and spectrum map.
    Model: GnpyModel/Slots.lean (second half). Helper lemmas: GnpyProofs/Lemmas/SlotsMap.lean. -/
 namespace Gnpy.Slots
@@ -252,7 +254,7 @@ theorem oms_partition (chains : List Chain) (netBands : List Band) (si : Option 
           rw [g2.1.1, g3, g4, hlo, hhi]
 
 /-- the OMS found by `reversed_oms` runs between the same two ROADMs the other way -/
-theorem reversed_endpoints (l : List (List String)) (i j : Nat) (h : reversedOms l i = some j) :
+theorem reversed_endpoints {α : Type} [DecidableEq α] (l : List (List α)) (i j : Nat) (h : reversedOms l i = some j) :
     ∃ e o, l[i]? = some e ∧ l[j]? = some o ∧ e.head? = o.getLast? ∧ e.getLast? = o.head? := by
   unfold reversedOms at h
   cases he : l[i]? with
@@ -266,8 +268,8 @@ theorem reversed_endpoints (l : List (List String)) (i j : Nat) (h : reversedOms
 
 /-- **opposite directions are paired.** When no two OMS run between the same ordered pair of ROADMs (no parallel
     links), `reversed_oms` is an involution: the reverse of the reverse of an OMS is the OMS itself. -/
-theorem reversed_involution (l : List (List String))
-    (huniq : ∀ (a b : Nat) (x y : List String), l[a]? = some x → l[b]? = some y → x.head? = y.head? →
+theorem reversed_involution {α : Type} [DecidableEq α] (l : List (List α))
+    (huniq : ∀ (a b : Nat) (x y : List α), l[a]? = some x → l[b]? = some y → x.head? = y.head? →
       x.getLast? = y.getLast? → a = b)
     (i j : Nat) (h : reversedOms l i = some j) : reversedOms l j = some i := by
   obtain ⟨e, o, he, ho, h1, h2⟩ := reversed_endpoints l i j h
@@ -289,6 +291,137 @@ theorem reversed_involution (l : List (List String))
     have hpk' : o.head? = l[k].getLast? ∧ o.getLast? = l[k].head? := by simpa using hpk
     have := huniq k i l[k] e (List.getElem?_eq_getElem hkl) he (by rw [← hpk'.2]; exact h1.symm) (by rw [← hpk'.1]; exact h2.symm)
     omega
+
+/-! ### the graph walk of `build_oms_list` (model `buildWalks` on the exported DiGraph) -/
+
+/-- **The walk terminates** within the fuel (= number of nodes) from every OMS vertex of a well-formed network, without
+    exception, and follows line elements up to the next ROADM. -/
+theorem walk_terminates (g : Net) (pos : Nat → Nat) (hwf : g.WF pos) (v x : Nat) (hv : v < g.size)
+    (hvk : g.kindOf v ≠ NodeKind.line) (hx : x ∈ g.succOf v) (hxk : g.kindOf x ≠ NodeKind.trx) :
+    ∃ w, walk g g.size v x = .ok w ∧ OmsPath g v x w := by
+  refine walk_ok g pos hwf g.size v x [v] hx hxk (by simp) ?_ ?_ (by simp)
+  · intro y hy; have : y = v := by simpa using hy
+    rw [this]; exact hv
+  · intro _ y hy; have : y = v := by simpa using hy
+    rw [this]; exact Or.inl hvk
+
+/-- **oms_partition on the graph.** On every well-formed network (each line element has exactly one successor and one
+    predecessor, no ring of line elements, transceivers have a successor) `build_oms_list`'s walk
+    * succeeds (no exception, no exhaustion of the fuel),
+    * gives OMS `i` = ingress node (ROADM, or transceiver feeding a line) · line elements · egress ROADM, consecutive
+      elements joined by edges of the network, ids `0 … n−1` being the positions in construction order,
+    * puts every line element into exactly one OMS, and the `oms_id` back reference of the element is that OMS. -/
+theorem oms_partition_graph (g : Net) (pos : Nat → Nat) (hwf : g.WF pos) :
+    ∃ vs L, omsVertices g = .ok vs ∧ buildWalks g = .ok L ∧ L.length = (omsStarts g vs).length ∧
+      (∀ (i : Nat) (st : Nat × Nat), (omsStarts g vs)[i]? = some st → ∃ ls r, L[i]? = some (st.1 :: (ls ++ [r])) ∧
+        g.kindOf st.1 ≠ NodeKind.line ∧ (∀ y ∈ ls, g.kindOf y = NodeKind.line) ∧ g.kindOf r = NodeKind.roadm ∧
+        Linked g (st.1 :: (ls ++ [r]))) ∧
+      (∀ l, g.kindOf l = NodeKind.line → ∃ i els, L[i]? = some els ∧ l ∈ els ∧
+        (∀ (j : Nat) (els' : List Nat), L[j]? = some els' → l ∈ els' → j = i) ∧ omsIdOf L l = some i) := by
+  obtain ⟨vs, L, hv, hnd, hk, hr, ht, hL, hlen, hidx⟩ := buildWalks_ok g pos hwf
+  have hsnd := nodup_omsStarts g pos hwf vs hnd
+  -- shape of OMS i
+  have hshape : ∀ (i : Nat) (st : Nat × Nat), (omsStarts g vs)[i]? = some st →
+      ∃ w ls r, L[i]? = some (st.1 :: w) ∧ OmsPath g st.1 st.2 w ∧ w = ls ++ [r] ∧
+        g.kindOf st.1 ≠ NodeKind.line ∧ (∀ y ∈ ls, g.kindOf y = NodeKind.line) ∧ g.kindOf r = NodeKind.roadm := by
+    intro i st hi
+    obtain ⟨w, hw, hp⟩ := hidx i st hi
+    obtain ⟨ls, r, e, h1, h2⟩ := hp.shape
+    have hst := (mem_omsStarts g vs st).1 (List.mem_of_getElem? hi)
+    exact ⟨w, ls, r, hw, hp, e, (hk _ hst.1).2, h1, h2⟩
+  -- a line element of OMS j lies on the walk part
+  have honwalk : ∀ (j : Nat) (els : List Nat) (l : Nat), L[j]? = some els → l ∈ els → g.kindOf l = NodeKind.line →
+      ∃ st w, (omsStarts g vs)[j]? = some st ∧ els = st.1 :: w ∧ OmsPath g st.1 st.2 w ∧ l ∈ w ∧
+        g.kindOf st.1 ≠ NodeKind.line := by
+    intro j els l hj hl hll
+    have hjl : j < (omsStarts g vs).length := by
+      rw [← hlen]
+      rcases Nat.lt_or_ge j L.length with hh | hh
+      · exact hh
+      · rw [List.getElem?_eq_none hh] at hj; cases hj
+    obtain ⟨w, ls, r, hw, hp, _, hvk, _, _⟩ := hshape j _ (List.getElem?_eq_getElem hjl)
+    rw [hj] at hw
+    have he : els = (omsStarts g vs)[j].1 :: w := Option.some.inj hw
+    refine ⟨_, w, List.getElem?_eq_getElem hjl, he, hp, ?_, hvk⟩
+    rw [he] at hl
+    rcases List.mem_cons.1 hl with rfl | hl
+    · exact absurd hll hvk
+    · exact hl
+  refine ⟨vs, L, hv, hL, hlen, ?_, ?_⟩
+  · intro i st hi
+    obtain ⟨w, ls, r, hw, hp, e, h0, h1, h2⟩ := hshape i st hi
+    refine ⟨ls, r, by rw [hw, e], h0, h1, h2, ?_⟩
+    rw [← e]; exact hp.linked
+  · intro l hl
+    have hroute : ∀ st ∈ omsStarts g vs, ∃ w, OmsPath g st.1 st.2 w := by
+      intro st hst
+      obtain ⟨i, hi⟩ := List.mem_iff_getElem?.1 hst
+      obtain ⟨w, _, hp⟩ := hidx i st hi
+      exact ⟨w, hp⟩
+    obtain ⟨st, hst, w, hw, hlw⟩ := line_on_some_route g pos hwf vs hr ht hroute (pos l) l rfl hl
+    obtain ⟨i, hi⟩ := List.mem_iff_getElem?.1 hst
+    obtain ⟨w', hw', hp'⟩ := hidx i st hi
+    have hww : w = w' := hw.functional hp'
+    subst hww
+    have huniq : ∀ (j : Nat) (els' : List Nat), L[j]? = some els' → l ∈ els' → j = i := by
+      intro j els' hj hlj
+      obtain ⟨st', w2, hj', _, hp2, hl2, hvk2⟩ := honwalk j els' l hj hlj hl
+      have hvk1 := (hk _ ((mem_omsStarts g vs st).1 hst).1).2
+      obtain ⟨e1, e2⟩ := OmsPath.same_start g pos hwf (pos l) l rfl hl st'.1 st'.2 st.1 st.2 w2 w hvk2 hvk1 hp2 hw hl2 hlw
+      have hsteq : st' = st := Prod.ext e1 e2
+      have hjl : j < (omsStarts g vs).length := by
+        rcases Nat.lt_or_ge j (omsStarts g vs).length with hh | hh
+        · exact hh
+        · rw [List.getElem?_eq_none hh] at hj'; cases hj'
+      have hil : i < (omsStarts g vs).length := by
+        rcases Nat.lt_or_ge i (omsStarts g vs).length with hh | hh
+        · exact hh
+        · rw [List.getElem?_eq_none hh] at hi; cases hi
+      have h1 : (omsStarts g vs)[j] = st' := by
+        have := List.getElem?_eq_getElem hjl; rw [hj'] at this; exact (Option.some.inj this).symm
+      have h2 : (omsStarts g vs)[i] = st := by
+        have := List.getElem?_eq_getElem hil; rw [hi] at this; exact (Option.some.inj this).symm
+      exact (hsnd.getElem_inj_iff (hi := hjl) (hj := hil)).1 (by rw [h1, h2, hsteq])
+    refine ⟨i, st.1 :: w, hw', List.mem_cons_of_mem _ hlw, huniq, ?_⟩
+    -- the back reference: the only OMS whose interior contains l is OMS i
+    unfold omsIdOf
+    have hint : ∀ (els : List Nat) (j : Nat), L[j]? = some els → l ∈ interior els → l ∈ els := by
+      intro els j _ h
+      unfold interior at h
+      exact List.mem_of_mem_tail ((List.dropLast_sublist _).subset h)
+    have hlint : l ∈ interior (st.1 :: w) := by
+      obtain ⟨ls, r, e, h1, h2⟩ := hw.shape
+      rw [e] at hlw ⊢
+      have : interior (st.1 :: (ls ++ [r])) = ls := by
+        unfold interior
+        rw [List.tail_cons, List.dropLast_concat]
+      rw [this]
+      rcases List.mem_append.1 hlw with h | h
+      · exact h
+      · have : l = r := by simpa using h
+        rw [this, h2] at hl; cases hl
+    have hmemF : (st.1 :: w, i) ∈ L.zipIdx.filter (fun p => decide (l ∈ interior p.1)) :=
+      List.mem_filter.2 ⟨List.mem_zipIdx_iff_getElem?.2 hw', decide_eq_true hlint⟩
+    cases hF : (L.zipIdx.filter (fun p => decide (l ∈ interior p.1))).getLast? with
+    | none =>
+      rw [List.getLast?_eq_none_iff] at hF
+      rw [hF] at hmemF; cases hmemF
+    | some q =>
+      have hq := List.mem_of_getLast? hF
+      obtain ⟨hq1, hq2⟩ := List.mem_filter.1 hq
+      have hq1' := List.mem_zipIdx_iff_getElem?.1 hq1
+      have hq2' : l ∈ interior q.1 := by simpa using hq2
+      have := huniq q.2 q.1 hq1' (hint q.1 q.2 hq1' hq2')
+      simp [this]
+
+/-- opposite directions are paired on the graph as well: the OMS found by `reversed_oms` runs between the same two nodes
+    the other way, and without parallel OMS the pairing is an involution (`reversed_endpoints`, `reversed_involution`
+    hold for the element lists produced by the walk, whatever they are) -/
+theorem reversed_pairs_walk (L : List (List Nat)) (i j : Nat) (h : reversedOms L i = some j) :
+    (∃ e o, L[i]? = some e ∧ L[j]? = some o ∧ e.head? = o.getLast? ∧ e.getLast? = o.head?) ∧
+    ((∀ (a b : Nat) (x y : List Nat), L[a]? = some x → L[b]? = some y → x.head? = y.head? → x.getLast? = y.getLast? → a = b) →
+      reversedOms L j = some i) :=
+  ⟨reversed_endpoints L i j h, fun hu => reversed_involution L hu i j h⟩
 
 /-! ### the two defects of the code before the repairs, decided on faithful models of the old code -/
 
@@ -332,6 +465,68 @@ example : ((Bitmap.create (anchorHz - 4 * defaultGrid) (anchorHz + 2 * defaultGr
 /-- reverse pairing on a three-ROADM line: 0 ↔ 1 and 2 ↔ 3 -/
 example : (List.range 4).map (reversedOms [["A", "f1", "B"], ["B", "f2", "A"], ["B", "f3", "C"], ["C", "f4", "B"]]) =
     [some 1, some 0, some 3, some 2] := by decide
+/-- a small well-formed network: ROADM 0 with transceiver 1, line 0 → 2 → 3 → ROADM 4, back 4 → 5 → 0 -/
+def exNet : Net :=
+  { kind := [.roadm, .trx, .line, .line, .roadm, .line],
+    succ := [[1, 2], [0], [3], [4], [5], [0]] }
+def exPos (l : Nat) : Nat := if l = 3 then 1 else 0
+
+theorem exNet_succ_lt (a l : Nat) (h : l ∈ exNet.succOf a) : a < 6 := by
+  rcases Nat.lt_or_ge a 6 with hh | hh
+  · exact hh
+  · unfold Net.succOf at h
+    rw [List.getElem?_eq_none (by simpa [exNet] using hh)] at h
+    simp at h
+
+theorem exNet_line (l : Nat) (h : exNet.kindOf l = NodeKind.line) : l = 2 ∨ l = 3 ∨ l = 5 := by
+  have hl : l < 6 := exNet.kindOf_lt l (by rw [h]; decide)
+  interval_cases l <;> simp_all [Net.kindOf, exNet]
+
+/-- the hypothesis `Net.WF` of the walk theorems is satisfiable -/
+example : exNet.WF exPos := by
+  refine ⟨rfl, ?_, ?_, ?_, ?_, ?_, ?_, ?_, ?_, ?_, ?_⟩
+  · intro i x h
+    have := exNet_succ_lt i x h
+    interval_cases i <;> simp_all [Net.succOf, exNet, Net.size]
+    all_goals omega
+  · intro i
+    rcases Nat.lt_or_ge i 6 with hh | hh
+    · interval_cases i <;> decide
+    · unfold Net.succOf; rw [List.getElem?_eq_none (by simpa [exNet] using hh)]; simp
+  · intro l h
+    rcases exNet_line l h with rfl | rfl | rfl
+    · exact ⟨3, rfl, by decide⟩
+    · exact ⟨4, rfl, by decide⟩
+    · exact ⟨0, rfl, by decide⟩
+  · intro a b l h ha hb
+    have h1 := exNet_succ_lt a l ha
+    have h2 := exNet_succ_lt b l hb
+    rcases exNet_line l h with rfl | rfl | rfl <;> interval_cases a <;> interval_cases b <;>
+      simp_all [Net.succOf, exNet]
+  · intro l h
+    rcases exNet_line l h with rfl | rfl | rfl
+    · exact ⟨0, by decide⟩
+    · exact ⟨2, by decide⟩
+    · exact ⟨4, by decide⟩
+  · intro a l h ha
+    have h1 := exNet_succ_lt a l ha
+    rcases exNet_line l h with rfl | rfl | rfl <;> interval_cases a <;> simp_all [Net.succOf, exNet]
+  · intro a l h ha hk
+    have h1 := exNet_succ_lt a l ha
+    rcases exNet_line l h with rfl | rfl | rfl <;> interval_cases a <;> simp_all [Net.succOf, Net.kindOf, exNet, exPos]
+  · intro a l h ha hk
+    have h1 := exNet_succ_lt a l ha
+    rcases exNet_line l h with rfl | rfl | rfl <;> interval_cases a <;> simp_all [Net.succOf, Net.kindOf, exNet, exPos]
+  · intro t ht hk
+    have : t < 6 := ht
+    interval_cases t <;> simp_all [Net.succOf, Net.kindOf, exNet]
+  · intro t l hk hl hll
+    have h1 := exNet_succ_lt t l hl
+    rcases exNet_line l hll with rfl | rfl | rfl <;> interval_cases t <;> simp_all [Net.succOf, Net.kindOf, exNet]
+
+example : (buildWalks exNet).toOption = some [[0, 2, 3, 4], [4, 5, 0]] := by decide
+example : ((buildWalks exNet).toOption.map (fun l => (List.range 6).map (omsIdOf l))) =
+    some [none, none, some 0, some 0, none, some 1] := by decide
 end NonVacuity
 
 end Gnpy.Slots
